@@ -20,6 +20,7 @@ LEVEL = "model_checking"
 ASSUME = [
     "the server clock (State.WorldState.Now) is monotone; client clocks are within one model tick of it when the packet is sealed (a stamp further ahead is refused and consumed, never accepted twice)",
     "model time is ticks with W = 2; every tick length in [tolerance/2, tolerance) is a sound concretisation and eight of them (edges 177 s ... 181 s of the window, 358 s ... 362 s of the retention, sub-second phases) are replayed; the harness re-checks this arithmetic against the constants of the code under test",
+    "a presentation that waits for the lock held by the sweep has no effect until it gets it (it reads the clock afterwards), so 'arrives during the sweep' and 'directly after the sweep' are one model history; the driver realises both",
     "two clean-ups closer than the 12 h period are allowed in the model (over-approximation); on the code each is the first firing of its own real UsedRandomCleaner goroutine",
     "X25519 public keys other than the client's own encoding and its bit-255 twin that give the same secret (u + p for u < 19) occur with probability 2^-250 and are not constructed",
     "AES-GCM and X25519 are trusted: a copy with a different sealed block does not authenticate",
@@ -201,7 +202,7 @@ def run(ctx):
         "rule": "histories = every maximal path of ReplayCacheGen for the small bounds (%s; either byte variant, clean-ups at "
                 "any phase, client skew -1..+1) + TLC -simulate paths of the model-checked bounds (2 blocks, clock 0..8, "
                 "4 presentations, 2 clean-ups) + every counter-example history of the three deviating models (same small "
-                "bounds); each is run under %s of the 8 tick concretisations (one-block counter-example histories: all 8), transports alternating; non-trivial = "
+                "bounds, plus those of the snapshot-swap sweep) + histories whose sweeps are CleanBegin/CleanVisit/CleanEnd with time passing in between; each is run under %s of the 8 tick concretisations (one-block counter-example histories: all 8), transports alternating; where a presentation directly follows a sweep, one more run lets it ARRIVE while the real sweep is parked at a WorldState.Now() call (it queues on the lock) and releases the sweep afterwards; non-trivial = "
                 "a block is presented again after it was accepted (histories), an altered copy that still authenticates "
                 "on its own (variants), every gate/stress round; distinct = distinct action lists / alterations" % (
                     "1 block: clock 0..3 x 3 presentations x 2 clean-ups, clock 0..4 x 3 x 1" if q else
@@ -214,7 +215,7 @@ def run(ctx):
         "counter_examples_of_deviating_models_replayed": sum(v for k, v in gs.items() if k.startswith("cex_")),
         "counter_examples_reproduced_on_code": reproduced,
         "exhaustive": True,
-        "checker_cmd": "tlc ReplayCache.tla (mc + 3 negative configs) / ReplayCacheGen.tla + go test -run TestVerifC08",
+        "checker_cmd": "tlc ReplayCache.tla (mc + 5 negative configs) / ReplayCacheGen.tla + go test -run TestVerifC08",
         "harness_stats": {"main": gs, "stress": st.get("stats", {})},
     }
     return lib.finish(ctx, LEVEL, cov, ASSUME)
